@@ -60,7 +60,9 @@ FLOORS = {'quick': {'__nontrivial__': 400, 'target:sqlite': 800, 'kind:select': 
                     'tag:cte:in-subquery': 100, 'tag:cte:name-shadows-outer-table': 80,
                     'tag:cte:own-of-parenthesised-operand': 15, 'tag:setop-operand': 55, 'tag:setop:parenthesised-operand': 40,
                     'tag:setop:nested-operand-first-column:qualified': 12, 'tag:added-label:func': 3},
-          'thorough': {'__nontrivial__': 5000, 'kind:select': 15000, 'kind:dml': 3500}}
+          'thorough': {'__nontrivial__': 5000, 'kind:select': 15000, 'kind:dml': 3500, 'tag:order-matrix': 2160,
+                       'tag:reuse': 1500, 'tag:reuse:refused-nested-setop-then-scoped-cte': 150, 'tag:cte:in-subquery': 1000,
+                       'tag:setop-operand': 500, 'tag:cte:own-of-parenthesised-operand': 120}}
 N = {'quick': 300, 'thorough': 4000}
 N_SHAPES = {'quick': 130, 'thorough': 1500}
 N_REUSE = {'quick': 90, 'thorough': 1000}
